@@ -1741,4 +1741,125 @@ theorem ppm_slew_bound {k : Int} (hk0 : 0 ≤ k) (hk : k ≤ 6000000000) {p : Ra
     omega
   exact ⟨lo, up⟩
 
+/-! ### 9. bit patterns: `ofBits (toBits x) = x` -/
+
+theorem bits_decomp (s E r : Nat) (hs : s ≤ 1) (hE : E < 2048) (hr : r < 4503599627370496) :
+    (s * 9223372036854775808 + E * 4503599627370496 + r) / 9223372036854775808 % 2 = s ∧
+    (s * 9223372036854775808 + E * 4503599627370496 + r) / 4503599627370496 % 2048 = E ∧
+    (s * 9223372036854775808 + E * 4503599627370496 + r) % 4503599627370496 = r := by
+  generalize hb : s * 9223372036854775808 + E * 4503599627370496 + r = b
+  have q1 : b / 9223372036854775808 = s := by omega
+  have q2 : b / 4503599627370496 = s * 2048 + E := by omega
+  refine ⟨by omega, by omega, by omega⟩
+
+/-- decoding a pattern given by its three fields -/
+theorem ofBits_parts (sg : Bool) (E r : Nat) (hE : E < 2048) (hr : r < 2 ^ 52) :
+    ofBits ((if sg then 2 ^ 63 else 0) + E * 2 ^ 52 + r) =
+      if E = 2047 then (if r = 0 then .inf sg else .nan)
+      else if E = 0 then
+        (if r = 0 then .zero sg
+         else .fin (if sg then -((r : Rat) * pow2 (-1074)) else (r : Rat) * pow2 (-1074)))
+      else .fin (if sg then -(((2 ^ 52 + r : Nat) : Rat) * pow2 ((E : Int) - 1075))
+                 else ((2 ^ 52 + r : Nat) : Rat) * pow2 ((E : Int) - 1075)) := by
+  unfold ofBits minExp
+  simp only [Nat.reducePow] at hr ⊢
+  cases sg
+  · obtain ⟨a, b, c⟩ := bits_decomp 0 E r (by omega) hE hr
+    simp only [Nat.zero_mul] at a b c
+    simp only [Bool.false_eq_true, if_false, a, b, c]
+    simp
+  · obtain ⟨a, b, c⟩ := bits_decomp 1 E r (by omega) hE hr
+    simp only [Nat.one_mul] at a b c
+    simp only [if_true, a, b, c]
+    simp
+
+/-- the fields of a well-formed finite value: mantissa `m`, exponent `e`, `|q| = m·2^e` -/
+theorem WF_fin_fields {q : Rat} (h : WF (.fin q)) :
+    let a : Rat := if decide (q < 0) = true then -q else q
+    let e := ulpExp a.num.natAbs a.den
+    let m := (a / pow2 e).floor.toNat
+    (m : Rat) * pow2 e = a ∧ 1 ≤ m ∧ m < 2 ^ 53 ∧ (2 ^ 52 ≤ m ∨ e = -1074) ∧ -1074 ≤ e ∧ e ≤ 971 := by
+  obtain ⟨hr, hlt, h0⟩ := WF.rep h
+  have hrnd := rnd_of_rep hr
+  intro a e m
+  have ha_abs : a = q.abs := by
+    show (if decide (q < 0) = true then -q else q) = q.abs
+    by_cases hq : q < 0
+    · simp only [hq, decide_true, if_true]; exact (Rat.abs_of_nonpos (Rat.le_of_lt hq)).symm
+    · simp only [hq, decide_false, Bool.false_eq_true, if_false]; exact (Rat.abs_of_nonneg (by grind)).symm
+  have ha : 0 < a := by rw [ha_abs]; exact Rat.abs_pos_iff.2 h0
+  have hfix : rndPos a = a := by rw [ha_abs, ← rnd_abs, hrnd]
+  have he : e = ulpE a := rfl
+  have hP := pow2_pos e
+  -- the quotient is the natural number chosen by the rounding
+  obtain ⟨k, hk⟩ : ∃ k : Nat, a / pow2 e = (k : Rat) := by
+    refine ⟨roundHalfEven (a / pow2 e), ?_⟩
+    have : ((roundHalfEven (a / pow2 (ulpE a)) : Nat) : Rat) * pow2 (ulpE a) = a := hfix
+    rw [← he] at this
+    apply Rat.le_antisymm
+    · rw [div_le_iff hP, this]; exact Rat.le_refl
+    · rw [le_div_iff hP, this]; exact Rat.le_refl
+  have hm : m = k := by
+    show (a / pow2 e).floor.toNat = k
+    rw [hk, ← Rat.intCast_natCast, Rat.floor_intCast]; simp
+  have hmul : (m : Rat) * pow2 e = a := by
+    rw [hm, ← hk]; exact Rat.div_mul_cancel (pow2_ne_zero e)
+  obtain ⟨L, a1, a2, eL⟩ := ulpE_spec ha
+  rw [← he] at eL
+  have hge : -1074 ≤ e := by rw [he]; exact ulpE_ge a
+  have hL : L < 1024 := pow2_lt_iff.1 (by rw [ha_abs] at a1; grind)
+  have hlt53 : (m : Rat) < ((2 ^ 53 : Nat) : Rat) := by
+    have h1 : pow2 (L + 1) ≤ pow2 (53 + e) := pow2_mono (by rw [eL]; split <;> omega)
+    rw [pow2_add 53 e, pow2_53] at h1
+    have : (m : Rat) * pow2 e < ((2 ^ 53 : Nat) : Rat) * pow2 e := by grind
+    exact Rat.lt_of_mul_lt_mul_right this (Rat.le_of_lt hP)
+  have hm53 : m < 2 ^ 53 := Rat.natCast_lt_natCast.1 hlt53
+  have hm1 : 1 ≤ m := by
+    rcases Nat.eq_zero_or_pos m with hz | hp
+    · rw [hz] at hmul; simp at hmul; grind
+    · exact hp
+  refine ⟨hmul, hm1, hm53, ?_, hge, by rw [eL]; split <;> omega⟩
+  by_cases hsub : L - 52 < -1074
+  · right; rw [eL, if_pos hsub]
+  · left
+    rw [if_neg hsub] at eL
+    have h1 : pow2 52 * pow2 e = pow2 L := by rw [← pow2_add, eL]; congr 1; omega
+    have : ((2 ^ 52 : Nat) : Rat) * pow2 e ≤ (m : Rat) * pow2 e := by
+      rw [← pow2_natCast 52] ; show pow2 52 * pow2 e ≤ _; rw [h1, hmul]; exact a1
+    exact Rat.natCast_le_natCast.1 (Rat.le_of_mul_le_mul_right this hP)
+
+/-- the line protocol loses nothing: decoding the encoding of a well-formed value gives it
+    back (every NaN is the canonical one) -/
+theorem ofBits_toBits {x : F64} (h : WF x) : ofBits (toBits x) = x := by
+  cases x with
+  | nan => decide
+  | inf n => cases n <;> decide
+  | zero n => cases n <;> decide
+  | fin q =>
+    obtain ⟨hmul, hm1, hm53, hnorm, hge, hle⟩ := WF_fin_fields h
+    unfold toBits
+    simp only []
+    generalize hsg : decide (q < 0) = sg at *
+    generalize ha : (if sg = true then -q else q) = a at *
+    generalize he : ulpExp a.num.natAbs a.den = e at *
+    generalize hmm : (a / pow2 e).floor.toNat = m at *
+    have hq : q = if sg = true then -a else a := by
+      rw [← ha]; cases sg <;> simp
+    by_cases hsm : m < 2 ^ 52
+    · rw [if_pos hsm]
+      have he' : e = -1074 := by rcases hnorm with h' | h'; omega; exact h'
+      have := ofBits_parts sg 0 m (by decide) hsm
+      simp only [Nat.zero_mul, Nat.add_zero] at this
+      rw [this]
+      simp only [if_true, if_neg (show ¬ m = 0 by omega)]
+      rw [hq, ← hmul, he', if_neg (by decide)]
+    · rw [if_neg hsm]
+      obtain ⟨E, hE⟩ := Int.eq_ofNat_of_zero_le (show 0 ≤ e + 1075 by omega)
+      have hEn : (e + 1075).toNat = E := by omega
+      rw [hEn]
+      have := ofBits_parts sg E (m - 2 ^ 52) (by omega) (by omega)
+      rw [Nat.add_assoc] at this ⊢
+      rw [this, if_neg (by omega), if_neg (by omega), hq, ← hmul,
+        show 2 ^ 52 + (m - 2 ^ 52) = m by omega, show (E : Int) - 1075 = e by omega]
+
 end ScionTime.F64
